@@ -48,36 +48,39 @@ theorem plainComp_iff (c : String) : plainComp c = true ↔ c ≠ "." ∧ c ≠ 
 
 /-! ## the `os.Root` walk -/
 
-theorem rootWalk_zero (fs : FS) (root cur : Comps) (todo : List String) :
-    fs.rootWalk root 0 cur todo = .error .other := rfl
+theorem rootWalk_zero (fs : FS) (root cur : Comps) (todo : List String) {links : Nat} :
+    fs.rootWalk root 0 links cur todo = .error .other := rfl
 
-theorem rootWalk_nil (fs : FS) (root cur : Comps) (fuel : Nat) :
-    fs.rootWalk root (fuel + 1) cur [] = .ok cur := rfl
+theorem rootWalk_nil (fs : FS) (root cur : Comps) (fuel : Nat) {links : Nat} :
+    fs.rootWalk root (fuel + 1) links cur [] = .ok cur := rfl
 
-theorem rootWalk_cons (fs : FS) (root cur : Comps) (fuel : Nat) (c : String) (rest : List String) :
-    fs.rootWalk root (fuel + 1) cur (c :: rest) =
-      if c == "." || c == "" then fs.rootWalk root fuel cur rest
+theorem rootWalk_cons (fs : FS) (root cur : Comps) (fuel : Nat) (c : String) (rest : List String)
+    {links : Nat} :
+    fs.rootWalk root (fuel + 1) links cur (c :: rest) =
+      if c == "." || c == "" then fs.rootWalk root fuel links cur rest
       else if c == ".." then
         if cur.length ≤ root.length then .error .other
-        else fs.rootWalk root fuel cur.dropLast rest
+        else fs.rootWalk root fuel links cur.dropLast rest
       else
         match fs.lstat (cur ++ [c]) with
         | none => .error .other
         | some (.link t) =>
           if isAbsPath t then .error .other
-          else fs.rootWalk root fuel cur (splitPath t ++ rest)
-        | some _ => fs.rootWalk root fuel (cur ++ [c]) rest := by
+          else if links ≥ rootMaxSymlinks then .error .other
+          else fs.rootWalk root fuel (links + 1) cur (splitPath t ++ rest)
+        | some _ => fs.rootWalk root fuel links (cur ++ [c]) rest := by
   rw [FS.rootWalk]
   rfl
 
 /-- the walk never leaves the root -/
-theorem rootWalk_inside (fs : FS) (root : Comps) : ∀ (fuel : Nat) (cur : Comps) (todo : List String)
-    (real : Comps), fs.rootWalk root fuel cur todo = .ok real → root <+: cur → root <+: real := by
+theorem rootWalk_inside (fs : FS) (root : Comps) : ∀ (fuel : Nat) {links : Nat} (cur : Comps)
+    (todo : List String) (real : Comps),
+    fs.rootWalk root fuel links cur todo = .ok real → root <+: cur → root <+: real := by
   intro fuel
   induction fuel with
-  | zero => intro cur todo real h; rw [rootWalk_zero] at h; cases h
+  | zero => intro links cur todo real h; rw [rootWalk_zero] at h; cases h
   | succ n ih =>
-    intro cur todo real h hp
+    intro links cur todo real h hp
     cases todo with
     | nil => rw [rootWalk_nil] at h; cases h; exact hp
     | cons c rest =>
@@ -93,19 +96,21 @@ theorem rootWalk_inside (fs : FS) (root : Comps) : ∀ (fuel : Nat) (cur : Comps
           · cases h
           · split at h
             · cases h
-            · exact ih _ _ _ h hp
+            · split at h
+              · cases h
+              · exact ih _ _ _ h hp
           · exact ih _ _ _ h (prefix_append_right hp _)
 
 /-- two file systems that agree inside the root give the same walk -/
 theorem rootWalk_congr (fs₁ fs₂ : FS) (root : Comps)
     (hag : ∀ p, root <+: p → fs₁.lstat p = fs₂.lstat p) :
-    ∀ (fuel : Nat) (cur : Comps) (todo : List String), root <+: cur →
-      fs₁.rootWalk root fuel cur todo = fs₂.rootWalk root fuel cur todo := by
+    ∀ (fuel : Nat) {links : Nat} (cur : Comps) (todo : List String), root <+: cur →
+      fs₁.rootWalk root fuel links cur todo = fs₂.rootWalk root fuel links cur todo := by
   intro fuel
   induction fuel with
-  | zero => intro cur todo _; rfl
+  | zero => intro links cur todo _; rfl
   | succ n ih =>
-    intro cur todo hp
+    intro links cur todo hp
     cases todo with
     | nil => rfl
     | cons c rest =>
@@ -121,30 +126,32 @@ theorem rootWalk_congr (fs₁ fs₂ : FS) (root : Comps)
           · rfl
           · split
             · rfl
-            · exact ih _ _ hp
+            · split
+              · rfl
+              · exact ih _ _ hp
           · exact ih _ _ (prefix_append_right hp _)
 
 theorem rootOpen_eq (fs : FS) (root : Comps) (rel : List String) :
     fs.rootOpen root rel =
-      match fs.rootWalk root linkFuel root rel with
+      match fs.rootWalk root linkFuel 0 root rel with
       | .error e => .error e
       | .ok real =>
         match fs.lstat real with
         | some (.file docs) => docs
         | _ => .error .other := by
   unfold FS.rootOpen
-  cases fs.rootWalk root linkFuel root rel <;> rfl
+  cases fs.rootWalk root linkFuel 0 root rel <;> rfl
 
 theorem rootOpenDir_eq (fs : FS) (root : Comps) (rel : List String) :
     fs.rootOpenDir root rel =
-      match fs.rootWalk root linkFuel root rel with
+      match fs.rootWalk root linkFuel 0 root rel with
       | .error e => .error e
       | .ok real =>
         match fs.lstat real with
         | some .dir => .ok real
         | _ => .error .other := by
   unfold FS.rootOpenDir
-  cases fs.rootWalk root linkFuel root rel <;> rfl
+  cases fs.rootWalk root linkFuel 0 root rel <;> rfl
 
 theorem loadFile_eq (fs : FS) (cfg : RootCfg) (path : Comps) (fid : String) :
     loadFile fs cfg path fid =
@@ -280,8 +287,9 @@ theorem setRoot_eq (fs : FS) (cfg : RootCfg) (path : String) :
   simp only []
   cases fs.rootOpenDir cfg.root (relTo cfg.root (absPath cfg.cwd path)) <;> rfl
 
-theorem rootWalk_dotdot_at_root (fs : FS) (root : Comps) (fuel : Nat) (rest : List String) :
-    fs.rootWalk root (fuel + 1) root (".." :: rest) = .error .other := by
+theorem rootWalk_dotdot_at_root (fs : FS) (root : Comps) (fuel : Nat) (rest : List String)
+    {links : Nat} :
+    fs.rootWalk root (fuel + 1) links root (".." :: rest) = .error .other := by
   rw [rootWalk_cons]
   simp
 
@@ -304,10 +312,11 @@ def FNode.isLink : FNode → Bool
 
 /-! ## single steps of the walk (to evaluate it on concrete file systems, link by link) -/
 
-theorem rootWalk_step_plain {fs : FS} {root cur : Comps} {fuel : Nat} {c : String}
+theorem rootWalk_step_plain {fs : FS} {root cur : Comps} {fuel links : Nat} {c : String}
     {rest : List String} {n : FNode} (hc : plainComp c = true)
     (hl : fs.lstat (cur ++ [c]) = some n) (hn : n.isLink = false) :
-    fs.rootWalk root (fuel + 1) cur (c :: rest) = fs.rootWalk root fuel (cur ++ [c]) rest := by
+    fs.rootWalk root (fuel + 1) links cur (c :: rest) =
+      fs.rootWalk root fuel links (cur ++ [c]) rest := by
   have hc' := (plainComp_iff c).1 hc
   rw [rootWalk_cons, hl]
   cases n with
@@ -315,18 +324,31 @@ theorem rootWalk_step_plain {fs : FS} {root cur : Comps} {fuel : Nat} {c : Strin
   | file d => simp [hc'.1, hc'.2.1, hc'.2.2]
   | dir => simp [hc'.1, hc'.2.1, hc'.2.2]
 
-theorem rootWalk_step_link {fs : FS} {root cur : Comps} {fuel : Nat} {c t : String}
+theorem rootWalk_step_link {fs : FS} {root cur : Comps} {fuel links : Nat} {c t : String}
     {rest ts : List String} (hc : plainComp c = true)
     (hl : fs.lstat (cur ++ [c]) = some (.link t)) (ha : isAbsPath t = false)
-    (hs : splitPath t = ts) :
-    fs.rootWalk root (fuel + 1) cur (c :: rest) = fs.rootWalk root fuel cur (ts ++ rest) := by
+    (hs : splitPath t = ts) (hk : links < rootMaxSymlinks := by decide) :
+    fs.rootWalk root (fuel + 1) links cur (c :: rest) =
+      fs.rootWalk root fuel (links + 1) cur (ts ++ rest) := by
   have hc' := (plainComp_iff c).1 hc
+  have hk' : ¬ links ≥ rootMaxSymlinks := by omega
   rw [rootWalk_cons, hl]
-  simp [hc'.1, hc'.2.1, hc'.2.2, ha, hs]
+  simp [hc'.1, hc'.2.1, hc'.2.2, ha, hs, hk']
 
-theorem rootWalk_step_dotdot {fs : FS} {root cur : Comps} {fuel : Nat} {rest : List String}
+/-- the ninth link of one operation is refused (`ELOOP`) -/
+theorem rootWalk_step_link_limit {fs : FS} {root cur : Comps} {fuel links : Nat} {c t : String}
+    {rest : List String} (hc : plainComp c = true)
+    (hl : fs.lstat (cur ++ [c]) = some (.link t)) (hk : rootMaxSymlinks ≤ links) :
+    fs.rootWalk root (fuel + 1) links cur (c :: rest) = .error .other := by
+  have hc' := (plainComp_iff c).1 hc
+  have hk' : links ≥ rootMaxSymlinks := hk
+  rw [rootWalk_cons, hl]
+  simp [hc'.1, hc'.2.1, hc'.2.2, hk']
+
+theorem rootWalk_step_dotdot {fs : FS} {root cur : Comps} {fuel links : Nat} {rest : List String}
     (hl : root.length < cur.length) :
-    fs.rootWalk root (fuel + 1) cur (".." :: rest) = fs.rootWalk root fuel cur.dropLast rest := by
+    fs.rootWalk root (fuel + 1) links cur (".." :: rest) =
+      fs.rootWalk root fuel links cur.dropLast rest := by
   rw [rootWalk_cons]
   have : ¬ cur.length ≤ root.length := by omega
   simp [this]
@@ -469,10 +491,11 @@ theorem resolve_through (fs : FS) : ∀ (t : List String) (done : Comps) (fuel :
     simp
 
 theorem rootWalk_through (fs : FS) (root : Comps) : ∀ (t : List String) (cur : Comps) (fuel : Nat)
-    (rest : List String), NoLinksAlong fs cur t →
-      fs.rootWalk root (fuel + t.length) cur (t ++ rest) = fs.rootWalk root fuel (cur ++ t) rest
-  | [], cur, fuel, rest, _ => by simp
-  | c :: t, cur, fuel, rest, h => by
+    (rest : List String) {links : Nat}, NoLinksAlong fs cur t →
+      fs.rootWalk root (fuel + t.length) links cur (t ++ rest) =
+        fs.rootWalk root fuel links (cur ++ t) rest
+  | [], cur, fuel, rest, links, _ => by simp
+  | c :: t, cur, fuel, rest, links, h => by
     obtain ⟨hc, n, hl, hn⟩ := h.head
     rw [List.length_cons, ← Nat.add_assoc, List.cons_append, rootWalk_step_plain hc hl hn,
       rootWalk_through fs root t _ fuel rest h.tail]
@@ -520,42 +543,45 @@ theorem rootOpen_plain {fs : FS} {d : Comps} {c : String} {docs : R (List Val)} 
   rw [rootWalk_step_plain hc hl rfl, rootWalk_nil]
   simp only [hl]
 
-theorem rootWalk_plainDir {fs : FS} {d : Comps} (hd : PlainDir fs d) :
-    fs.rootWalk [] linkFuel [] d = .ok d := by
+theorem rootWalk_plainDir {fs : FS} {d : Comps} (hd : PlainDir fs d) {links : Nat} :
+    fs.rootWalk [] linkFuel links [] d = .ok d := by
   obtain ⟨k, hk⟩ : ∃ k, linkFuel = (k + 2) + d.length := ⟨linkFuel - 2 - d.length, by have := hd.2; omega⟩
-  have := rootWalk_through fs [] d [] (k + 2) [] hd.1
+  have := rootWalk_through fs [] d [] (k + 2) [] (links := links) hd.1
   rw [List.append_nil] at this
   rw [hk, this]
   rfl
 
 /-! ## the rooted existence probe (`Parser.stat`) -/
 
-theorem rootProbe_zero (fs : FS) (root cur : Comps) (todo : List String) :
-    fs.rootProbe root 0 cur todo = .refused := rfl
+theorem rootProbe_zero (fs : FS) (root cur : Comps) (todo : List String) {links : Nat} :
+    fs.rootProbe root 0 links cur todo = .refused := rfl
 
-theorem rootProbe_nil (fs : FS) (root cur : Comps) (fuel : Nat) :
-    fs.rootProbe root (fuel + 1) cur [] = .found cur := rfl
+theorem rootProbe_nil (fs : FS) (root cur : Comps) (fuel : Nat) {links : Nat} :
+    fs.rootProbe root (fuel + 1) links cur [] = .found cur := rfl
 
-theorem rootProbe_cons (fs : FS) (root cur : Comps) (fuel : Nat) (c : String) (rest : List String) :
-    fs.rootProbe root (fuel + 1) cur (c :: rest) =
-      if c == "." || c == "" then fs.rootProbe root fuel cur rest
+theorem rootProbe_cons (fs : FS) (root cur : Comps) (fuel : Nat) (c : String) (rest : List String)
+    {links : Nat} :
+    fs.rootProbe root (fuel + 1) links cur (c :: rest) =
+      if c == "." || c == "" then fs.rootProbe root fuel links cur rest
       else if c == ".." then
         if cur.length ≤ root.length then .refused
-        else fs.rootProbe root fuel cur.dropLast rest
+        else fs.rootProbe root fuel links cur.dropLast rest
       else
         match fs.lstat (cur ++ [c]) with
         | none => .missing
         | some (.link t) =>
           if isAbsPath t then .refused
-          else fs.rootProbe root fuel cur (splitPath t ++ rest)
-        | some _ => fs.rootProbe root fuel (cur ++ [c]) rest := by
+          else if links ≥ rootMaxSymlinks then .refused
+          else fs.rootProbe root fuel (links + 1) cur (splitPath t ++ rest)
+        | some _ => fs.rootProbe root fuel links (cur ++ [c]) rest := by
   rw [FS.rootProbe]
   rfl
 
-theorem rootProbe_step_plain {fs : FS} {root cur : Comps} {fuel : Nat} {c : String}
+theorem rootProbe_step_plain {fs : FS} {root cur : Comps} {fuel links : Nat} {c : String}
     {rest : List String} {n : FNode} (hc : plainComp c = true)
     (hl : fs.lstat (cur ++ [c]) = some n) (hn : n.isLink = false) :
-    fs.rootProbe root (fuel + 1) cur (c :: rest) = fs.rootProbe root fuel (cur ++ [c]) rest := by
+    fs.rootProbe root (fuel + 1) links cur (c :: rest) =
+      fs.rootProbe root fuel links (cur ++ [c]) rest := by
   have hc' := (plainComp_iff c).1 hc
   rw [rootProbe_cons, hl]
   cases n with
@@ -563,18 +589,19 @@ theorem rootProbe_step_plain {fs : FS} {root cur : Comps} {fuel : Nat} {c : Stri
   | file d => simp [hc'.1, hc'.2.1, hc'.2.2]
   | dir => simp [hc'.1, hc'.2.1, hc'.2.2]
 
-theorem rootProbe_step_missing {fs : FS} {root cur : Comps} {fuel : Nat} {c : String}
+theorem rootProbe_step_missing {fs : FS} {root cur : Comps} {fuel links : Nat} {c : String}
     {rest : List String} (hc : plainComp c = true) (hl : fs.lstat (cur ++ [c]) = none) :
-    fs.rootProbe root (fuel + 1) cur (c :: rest) = .missing := by
+    fs.rootProbe root (fuel + 1) links cur (c :: rest) = .missing := by
   have hc' := (plainComp_iff c).1 hc
   rw [rootProbe_cons, hl]
   simp [hc'.1, hc'.2.1, hc'.2.2]
 
 theorem rootProbe_through (fs : FS) (root : Comps) : ∀ (t : List String) (cur : Comps) (fuel : Nat)
-    (rest : List String), NoLinksAlong fs cur t →
-      fs.rootProbe root (fuel + t.length) cur (t ++ rest) = fs.rootProbe root fuel (cur ++ t) rest
-  | [], cur, fuel, rest, _ => by simp
-  | c :: t, cur, fuel, rest, h => by
+    (rest : List String) {links : Nat}, NoLinksAlong fs cur t →
+      fs.rootProbe root (fuel + t.length) links cur (t ++ rest) =
+        fs.rootProbe root fuel links (cur ++ t) rest
+  | [], cur, fuel, rest, links, _ => by simp
+  | c :: t, cur, fuel, rest, links, h => by
     obtain ⟨hc, n, hl, hn⟩ := h.head
     rw [List.length_cons, ← Nat.add_assoc, List.cons_append, rootProbe_step_plain hc hl hn,
       rootProbe_through fs root t _ fuel rest h.tail]
@@ -582,7 +609,7 @@ theorem rootProbe_through (fs : FS) (root : Comps) : ∀ (t : List String) (cur 
 
 theorem rootExists_eq (fs : FS) (root : Comps) (rel : List String) :
     fs.rootExists root rel =
-      match fs.rootProbe root linkFuel root rel with
+      match fs.rootProbe root linkFuel 0 root rel with
       | .missing => false
       | _ => true := rfl
 
@@ -1255,7 +1282,7 @@ theorem qsort_perm {α : Type} (lt : α → α → Bool) (as : Array α) :
 
 theorem rootReadDir_eq (fs : FS) (root : Comps) (rel : List String) :
     fs.rootReadDir root rel =
-      match fs.rootWalk root linkFuel root rel with
+      match fs.rootWalk root linkFuel 0 root rel with
       | .error _ => []
       | .ok real =>
         match fs.lstat real with
@@ -1263,7 +1290,7 @@ theorem rootReadDir_eq (fs : FS) (root : Comps) (rel : List String) :
         | _ => [] := rfl
 
 theorem rootReadDir_of_dir {fs : FS} {root real : Comps} {rel : List String}
-    (hw : fs.rootWalk root linkFuel root rel = .ok real) (hd : fs.lstat real = some .dir) :
+    (hw : fs.rootWalk root linkFuel 0 root rel = .ok real) (hd : fs.lstat real = some .dir) :
     fs.rootReadDir root rel = ((dirNames fs real).toArray.qsort (· < ·)).toList := by
   rw [rootReadDir_eq, hw]
   simp only [hd]
@@ -1333,7 +1360,7 @@ theorem filter_qsort_perm (p : String → Bool) (l : List String) :
 
 theorem globFiles_singleton {fs : FS} {root d real : Comps} {base n : String}
     (hd : ∀ c ∈ d, plainComp c = true) (hm : d.any hasMeta = false)
-    (hw : fs.rootWalk root linkFuel root d = .ok real) (hdir : fs.lstat real = some .dir)
+    (hw : fs.rootWalk root linkFuel 0 root d = .ok real) (hdir : fs.lstat real = some .dir)
     (h2 : globNames fs real base = [n]) :
     fs.globFiles root (root ++ d ++ [base]) = [root ++ d ++ [n]] := by
   rw [globFiles_snoc fs root d base hd hm, rootReadDir_of_dir hw hdir]
@@ -1344,7 +1371,7 @@ theorem globFiles_singleton {fs : FS} {root d real : Comps} {base n : String}
 
 theorem globFiles_nil {fs : FS} {root d real : Comps} {base : String}
     (hd : ∀ c ∈ d, plainComp c = true) (hm : d.any hasMeta = false)
-    (hw : fs.rootWalk root linkFuel root d = .ok real) (hdir : fs.lstat real = some .dir)
+    (hw : fs.rootWalk root linkFuel 0 root d = .ok real) (hdir : fs.lstat real = some .dir)
     (h2 : globNames fs real base = []) :
     fs.globFiles root (root ++ d ++ [base]) = [] := by
   rw [globFiles_snoc fs root d base hd hm, rootReadDir_of_dir hw hdir]
@@ -1356,14 +1383,14 @@ theorem globFiles_nil {fs : FS} {root d real : Comps} {base : String}
 /-- the same with no root set -/
 theorem globFiles_singleton_noroot {fs : FS} {d real : Comps} {base n : String}
     (hd : ∀ c ∈ d, plainComp c = true) (hm : d.any hasMeta = false)
-    (hw : fs.rootWalk [] linkFuel [] d = .ok real) (hdir : fs.lstat real = some .dir)
+    (hw : fs.rootWalk [] linkFuel 0 [] d = .ok real) (hdir : fs.lstat real = some .dir)
     (h2 : globNames fs real base = [n]) :
     fs.globFiles [] (d ++ [base]) = [d ++ [n]] :=
   globFiles_singleton (root := []) hd hm hw hdir h2
 
 theorem globFiles_nil_noroot {fs : FS} {d real : Comps} {base : String}
     (hd : ∀ c ∈ d, plainComp c = true) (hm : d.any hasMeta = false)
-    (hw : fs.rootWalk [] linkFuel [] d = .ok real) (hdir : fs.lstat real = some .dir)
+    (hw : fs.rootWalk [] linkFuel 0 [] d = .ok real) (hdir : fs.lstat real = some .dir)
     (h2 : globNames fs real base = []) :
     fs.globFiles [] (d ++ [base]) = [] :=
   globFiles_nil (root := []) hd hm hw hdir h2
@@ -1390,10 +1417,10 @@ theorem mem_globNames {fs : FS} {rdir : Comps} {base n : String} (h : n ∈ glob
 
 theorem mem_rootReadDir {fs : FS} {root : Comps} {rel : List String} {n : String}
     (h : n ∈ fs.rootReadDir root rel) :
-    ∃ real, fs.rootWalk root linkFuel root rel = .ok real ∧ fs.lstat real = some .dir ∧
+    ∃ real, fs.rootWalk root linkFuel 0 root rel = .ok real ∧ fs.lstat real = some .dir ∧
       n ∈ dirNames fs real := by
   rw [rootReadDir_eq] at h
-  cases hw : fs.rootWalk root linkFuel root rel with
+  cases hw : fs.rootWalk root linkFuel 0 root rel with
   | error e => rw [hw] at h; cases h
   | ok real =>
     rw [hw] at h
@@ -1456,7 +1483,7 @@ theorem mem_globFiles_spec {fs : FS} {root target f : Comps} (h : f ∈ fs.globF
     ∃ dpat m n, relTo root (dirOf target ++ [baseOf target ++ ".*"]) = dpat ++ [baseOf target ++ ".*"] ∧
       root ++ dpat = dirOf target ∧ f = root ++ m ++ [n] ∧ m.length = dpat.length ∧
       (dpat.any hasMeta = false → m = dpat) ∧
-      (∃ real, fs.rootWalk root linkFuel root m = .ok real ∧ fs.lstat real = some .dir ∧
+      (∃ real, fs.rootWalk root linkFuel 0 root m = .ok real ∧ fs.lstat real = some .dir ∧
         n ∈ dirNames fs real) ∧
       globMatch (baseOf target ++ ".*").toList n.toList
         ((baseOf target ++ ".*").length + n.length + 1) = true ∧
@@ -1547,7 +1574,7 @@ theorem selfFS_load (fid : String) :
   have h1 : supportedExts.contains (extOf (baseOf ["a.yaml"])) = true := by
     rw [extOf_eq]; decide
   rw [h1, if_pos rfl, rootOpen_eq]
-  have h2 : selfFS.rootWalk [] linkFuel [] (relTo [] ["a.yaml"]) = .ok ["a.yaml"] := by decide
+  have h2 : selfFS.rootWalk [] linkFuel 0 [] (relTo [] ["a.yaml"]) = .ok ["a.yaml"] := by decide
   simp only [h2]
   rfl
 
